@@ -343,6 +343,10 @@ type problem struct {
 	exec    func(args []any, st *any) ([]block, error)
 	orc     func(pb *problem, floatVals []float64, exec func(ins []*input) ([]float64, string)) oracle
 	ticks   int64
+	baseTicks int64 // loop iterations of the case's own float run
+	// iterative: the routine stops on a convergence threshold; a derivative
+	// failure is re-examined at nearby inputs (see persistent)
+	iterative bool
 	// reusable: the routine takes an InSitu object; warm (optional) is another
 	// instance of the same shape executed first with the same state.
 	reusable bool
@@ -371,6 +375,7 @@ func (pb *problem) storageLabel() string {
 }
 
 type outcome struct {
+	ticks  int64 // loop iterations (Tick hook, all sites) spent in the call
 	blocks []block
 	err    error
 	pan    *fw.Panic
@@ -406,10 +411,20 @@ func (pb *problem) run(args []any, st *any) *outcome {
 	if t == 0 {
 		t = 20000
 	}
+	t0 := totalTicks()
 	fw.SetTickBudget(t)
 	o.pan = fw.Call(func() { o.blocks, o.err = pb.exec(args, st) })
 	fw.SetTickBudget(0)
+	o.ticks = totalTicks() - t0
 	return o
+}
+
+func totalTicks() int64 {
+	n := int64(0)
+	for _, s := range fw.TickSites() {
+		n += fw.TickCount(s)
+	}
+	return n
 }
 
 func flatten(bs []block) []ad.ConstScalar {
@@ -441,6 +456,9 @@ func blockOf(bs []block, o int) string {
 
 // floatExec runs the problem's routine on plain Float64 containers built from
 // alternative input values (used by finite-difference oracles).
+// A run that needs another number of loop iterations than the case's own
+// float run took another branch sequence (iteration counts decide signs and
+// truncation of the iterative routines): it is reported as "iterations".
 func (pb *problem) floatExec(e elem) func(ins []*input) ([]float64, string) {
 	return func(ins []*input) ([]float64, string) {
 		q := *pb
@@ -449,6 +467,9 @@ func (pb *problem) floatExec(e elem) func(ins []*input) ([]float64, string) {
 		o := q.run(q.buildArgs(e, nil), &st)
 		if o.failed() {
 			return nil, o.failure()
+		}
+		if o.ticks != pb.baseTicks {
+			return nil, "iterations"
 		}
 		return values(flatten(o.blocks)), ""
 	}
@@ -548,6 +569,7 @@ func judge(cs *fw.Case, pb *problem, cfg *caseCfg) bool {
 		return false
 	}
 	fvals := values(flatten(fo.blocks))
+	pb.baseTicks = fo.ticks
 	orc := pb.orc(pb, fvals, pb.floatExec(fe))
 	if s := orc.admissible(); s != "" {
 		cs.Skip(s)
@@ -570,6 +592,11 @@ func judge(cs *fw.Case, pb *problem, cfg *caseCfg) bool {
 	cs.Cover("judged:" + cell)
 	cs.Cover(fmt.Sprintf("judged:%s:%s:order%d", cfg.mon, e.name, cfg.p.order))
 	cs.Cover("activation:" + cfg.p.mode)
+	if pb.iterative {
+		for i := range fresh {
+			fresh[i] = persistent(cs, pb, cfg, fresh[i])
+		}
+	}
 	seen := map[string]bool{}
 	for _, f := range fresh {
 		seen[f.kind] = true
@@ -607,6 +634,80 @@ func judge(cs *fw.Case, pb *problem, cfg *caseCfg) bool {
 		}
 	}
 	return true
+}
+
+// persistent re-examines a derivative failure of an iterative routine at four
+// inputs that differ from the case's by a relative perturbation of 1e-9 (zero
+// pattern and symmetry kept).  A wrong, missing or stale derivative fails
+// there as well; a failure that does not reproduce is a numerical instability
+// of the derivative computation (kind "...:erratic").
+func persistent(cs *fw.Case, pb *problem, cfg *caseCfg, f finding) finding {
+	if !(strings.HasPrefix(f.kind, "d1") || strings.HasPrefix(f.kind, "d2")) {
+		return f
+	}
+	ord := f.kind[:2]
+	fe := floatOf(cfg.e)
+	repro, tried := 0, 0
+	pr := prng.For(cs.C.Seed, cs.ID+"/persist", cs.Index)
+	for t := 0; t < 4; t++ {
+		q := *pb
+		q.iterative = false
+		q.in = make([]*input, len(pb.in))
+		for ai, in := range pb.in {
+			c := *in
+			c.v = append([]float64(nil), in.v...)
+			n := in.cols()
+			for i := 0; i < in.r; i++ {
+				for j := 0; j < n; j++ {
+					if in.sym && j > i {
+						continue
+					}
+					c.v[i*n+j] *= 1 + 1e-9*pr.Uniform(-1, 1)
+					if in.sym {
+						c.v[j*n+i] = c.v[i*n+j]
+					}
+				}
+			}
+			q.in[ai] = &c
+		}
+		var st any
+		fo := q.run(q.buildArgs(fe, nil), &st)
+		if fo.failed() {
+			continue
+		}
+		fv := values(flatten(fo.blocks))
+		q.baseTicks = fo.ticks
+		orc := q.orc(&q, fv, q.floatExec(fe))
+		if orc.admissible() != "" || orc.check(fv, fe.eps) != "" {
+			continue
+		}
+		res, skip := evaluate(cs, &q, cfg, orc, fv, "")
+		if skip != "" {
+			continue
+		}
+		tried++
+		for _, g := range res {
+			if strings.HasPrefix(g.kind, ord) {
+				repro++
+				break
+			}
+		}
+	}
+	f.detail += fmt.Sprintf(" -- reproduced at %d of %d inputs within a relative distance of 1e-9", repro, tried)
+	erratic := tried > 0 && repro < tried
+	switch {
+	case ord == "d2":
+		// second derivatives through the QR / Golub-Kahan iterations lose up
+		// to all digits by cancellation (see notes/c06.md): one kind
+		f.kind = "d2:unstable"
+	case strings.Contains(f.kind, "[zero-entry]"):
+		// a derivative with respect to a structural zero that is off: a
+		// shortcut on exact zeros dropped a contribution
+		f.kind = "d1[zero-entry]:wrong"
+	case erratic || strings.HasSuffix(f.kind, ":inaccurate"):
+		f.kind = "d1:unstable"
+	}
+	return f
 }
 
 // evaluate runs the magic path once (reuse == "": fresh state) and returns
@@ -696,11 +797,12 @@ func evaluate(cs *fw.Case, pb *problem, cfg *caseCfg, orc oracle, fvals []float6
 	for di, d := range p.dirs {
 		ref, tol, skip := orc.d1(dirMats(pb.in, d), e.eps)
 		if skip != "" {
-			cs.Cover("slot-skipped:" + skip)
+			cs.Cover("slot-skipped:" + skip + ":" + pb.routine + "/" + pbOpts(pb))
 			continue
 		}
 		if reuse == "" {
 			cs.C.Cover("slots:"+cfg.mon+":d1", int64(len(ref)))
+			cs.Cover("dirs:" + cfg.mon + ":d1:" + pb.routine + "/" + pbOpts(pb))
 		}
 		for o := range ref {
 			if math.IsNaN(ref[o]) {
@@ -719,9 +821,9 @@ func evaluate(cs *fw.Case, pb *problem, cfg *caseCfg, orc oracle, fvals []float6
 			}
 			if ex > w1.excess {
 				w1.excess = ex
-				w1.kind = fmt.Sprintf("d1%s:%s->%s", slotClass(pb, d), d.label, blockOf(ro.blocks, o))
-				w1.detail = fmt.Sprintf("first derivative of output %d (%s) along direction %d %v: library %.17g, reference %.17g, tolerance %.3g (output order %d)",
-					o, blockOf(ro.blocks, o), di, d.ent, got, ref[o], tol, outs[o].GetOrder())
+				w1.kind = "d1" + slotClass(pb, d)
+				w1.detail = fmt.Sprintf("first derivative d(%[2]s)/d(%[5]s) of output %[1]d (%[2]s) along direction %[3]d %[4]v: library %.17[6]g, reference %.17[7]g, tolerance %.3[8]g (output order %[9]d)",
+					o, blockOf(ro.blocks, o), di, d.ent, d.label, got, ref[o], tol, outs[o].GetOrder())
 			}
 		}
 	}
@@ -773,11 +875,12 @@ func evaluate(cs *fw.Case, pb *problem, cfg *caseCfg, orc oracle, fvals []float6
 		da, db := p.dirs[pr.a], p.dirs[pr.b]
 		ref, tol, skip := orc.d2(dirMats(pb.in, da), dirMats(pb.in, db), e.eps)
 		if skip != "" {
-			cs.Cover("slot-skipped:" + skip)
+			cs.Cover("slot-skipped:" + skip + ":" + pb.routine + "/" + pbOpts(pb))
 			continue
 		}
 		if reuse == "" {
 			cs.C.Cover("slots:"+cfg.mon+":d2", int64(len(ref)))
+			cs.Cover("dirs:" + cfg.mon + ":d2:" + pb.routine + "/" + pbOpts(pb))
 		}
 		for o := range ref {
 			if math.IsNaN(ref[o]) {
@@ -800,9 +903,9 @@ func evaluate(cs *fw.Case, pb *problem, cfg *caseCfg, orc oracle, fvals []float6
 					la, lb = lb, la
 				}
 				w2.excess = ex
-				w2.kind = fmt.Sprintf("d2%s:%s,%s->%s", slotClass(pb, da, db), la, lb, blockOf(ro.blocks, o))
-				w2.detail = fmt.Sprintf("second derivative of output %d (%s) along directions %v x %v: library %.17g, reference %.17g, tolerance %.3g (output order %d)",
-					o, blockOf(ro.blocks, o), da.ent, db.ent, got, ref[o], tol, outs[o].GetOrder())
+				w2.kind = "d2" + slotClass(pb, da, db)
+				w2.detail = fmt.Sprintf("second derivative d2(%[2]s)/d(%[9]s)d(%[10]s) of output %[1]d (%[2]s) along directions %[3]v x %[4]v: library %.17[5]g, reference %.17[6]g, tolerance %.3[7]g (output order %[8]d)",
+					o, blockOf(ro.blocks, o), da.ent, db.ent, got, ref[o], tol, outs[o].GetOrder(), la, lb)
 			}
 		}
 	}
